@@ -832,3 +832,26 @@ def stack1(cfg):
     res.count('stack primitives', n)
     res.floor('stack primitives', 12)
     return res
+
+
+def iter6(cfg):
+    """ITER-6: positioning starts from an empty stack"""
+    res = RuleResult('ITER-6', 'the positioning functions first / last / seek (db) and try_first / try_last / try_seek (olc_db) reset the iterator (invalidate(): empty stack, empty key buffer) before they push anything, on every path - they are re-entered by the retry loops of first() / last() / seek() and by the re-seek of next() / prior(), and an attempt that was abandoned half-way leaves entries behind; without the reset the next attempt builds its path on top of them and the scan later falls back into the leftovers (keys delivered twice, out of order)')
+    POS = {'first', 'last', 'seek', 'try_first', 'try_last', 'try_seek'}
+    n = 0
+    for f in [g for g in cfg.functions if g.blocks and ITER_CLS.match(g.cls)]:
+        if f.short not in POS or (('olc_db' in f.cls) != f.short.startswith('try_')):
+            continue
+        n += 1
+        res.functions.add(f.sig)
+        dom = dominators(f)
+        resets = [(b, i) for b, i, e in f.elements() if e.get('k') == 'call' and e.get('name') == 'invalidate' and (e.get('cls') or '') == f.cls and not is_assert_elem(e)]
+        pushes = [(b, i, e) for b, i, e in f.elements() if e.get('k') == 'call' and not is_assert_elem(e) and (e.get('cls') or '') == f.cls and (e.get('name') in ('push', 'push_leaf', 'try_push', 'try_push_leaf') or 'traversal' in (e.get('name') or ''))]
+        bad = [(b, i, e) for b, i, e in pushes if not any(elem_dominates(f, dom, r, (b, i)) for r in resets)]
+        ok = bool(resets) and not bad
+        res.ob(ok, {'rule': 'ITER-6', 'function': sh(f.sig)[:110], 'resets': len(resets), 'pushing_steps': len(pushes), 'verdict': 'discharged' if ok else 'VIOLATION'})
+        if not ok:
+            res.find(f, bad[0][2].get('loc') if bad else f.loc, '%s %s: the function is re-entered after an abandoned attempt (restart, re-seek), whose entries are still on the stack; the new path is built on top of them and the scan later continues from the leftovers - keys are delivered twice or out of order' % (f.short, 'never resets the iterator' if not resets else 'pushes onto the stack on a path that has not passed invalidate()'), key='ITER-6:%s' % f.short, config=cfg.name)
+    res.count('positioning functions', n)
+    res.floor('positioning functions', 12)
+    return res
